@@ -132,3 +132,13 @@ Proof.
   intros i Hi. apply in_seq in Hi. pose proof (all_nodes_length h) as HL.
   apply IndexToPath_node_at; [exact Hh|]. unfold node in *. lia.
 Qed.
+
+(** the same in the vocabulary of C04 ([stored_nodes] of the full level mask, indices 0 .. T-1):
+    with C04_allpaths this says that AllPaths on a full tree lists IndexToPath h 0, 1, …, T-1 *)
+Lemma IndexToPath_enumerates_stored h : (h <= 30)%nat ->
+  map (fun i => IndexToPath (Z.of_nat h) (Z.of_nat i)) (seq 0 (Z.to_nat (fullT h)))
+  = map (fun q => Some (enc h q)) (stored_nodes (fullT h) h).
+Proof.
+  intros Hh. rewrite stored_nodes_full. rewrite <- IndexToPath_enumerates by exact Hh.
+  do 2 f_equal. pose proof (all_nodes_length h). unfold fullT. unfold node in *. lia.
+Qed.
